@@ -359,6 +359,7 @@ def storage(ctx, rep):
         I = Interp(P); st = State()
         seed, fo = symbolic_seed(I, st, canonical=True)
         st.mem.new('storage', 32, U)
+        I.contract = {'storage'}      # (32 = POLYSEED_SIZE of the public header, ABI-1) the caller's buffer has exactly the size of the public typedef: an access outside it is a violation (MEM-1), not an engine problem
         outs = I.run(fs, P.by_type(fs, seed=seed, storage=Ptr('storage', 0)), st)
         img = None
         if len(outs) != 1:
@@ -391,6 +392,7 @@ def storage(ctx, rep):
         for k in range(32): put(st, 'storage', k, I.V.bv('in[%d]' % k, 8))
         size = P.structs[DATA_STRUCT]['size']
         st.mem.new('seed', size, U)
+        I.contract = {'storage'}
         outs = I.run(fl, P.by_type(fl, storage=Ptr('storage', 0), seed=Ptr('seed', 0)), st)
         oks = []; nform = 0
         ACC, REJ = codec_values(fl, status)
